@@ -385,6 +385,27 @@ start:
 			}
 		}
 
+		// convert records the nilness of v, the result of converting x.
+		convert := func(v, x ir.Value) {
+			isString := func(term *types.Term) bool {
+				b, ok := term.Type().Underlying().(*types.Basic)
+				return ok && b.Info()&types.IsString != 0
+			}
+			switch {
+			case typeutil.IsPointerLike(x.Type()):
+				s.set(v, s.get(x))
+			case typeutil.All(x.Type(), isString):
+				// Converting a string to a slice of bytes or runes yields
+				// a non-nil slice.
+				s.setOuter(v, NeverNil)
+			default:
+				// The operand is not pointer-like (s.get would call it
+				// NeverNil), but the result may be: uintptr(0) converts to
+				// a nil unsafe.Pointer.
+				s.set(v, ValueNilness{MaybeNil, MaybeNil})
+			}
+		}
+
 		for _, instr := range from.Instrs {
 			// It is tempting to return early when instr is an ir.Value that
 			// doesn't have pointer type. However, instructions like ir.Load
@@ -392,7 +413,7 @@ start:
 
 			switch v := instr.(type) {
 			case *ir.Convert:
-				s.set(v, s.get(v.X))
+				convert(v, v.X)
 			case *ir.SliceToArrayPointer:
 				// Go does not currently allow (*T)(s) where T is a type
 				// parameter with a type set consisting of array types, but it
@@ -507,7 +528,7 @@ start:
 			case *ir.ChangeType:
 				s.set(v, s.get(v.X))
 			case *ir.MultiConvert:
-				s.set(v, s.get(v.X))
+				convert(v, v.X)
 			case *ir.Load:
 				// Set Inner, too: a loaded interface value may hold anything.
 				// Leaving Inner unset would let the Inner of other values win
